@@ -2,4 +2,4 @@
 From Coq Require Import ExtrOcamlBasic.
 From Ivv Require Import Misc.InotifyModel Misc.InotifyMonitor.
 Extraction "inotify_model.ml" InotifyModel.init InotifyModel.step InotifyModel.encode InotifyModel.dump
-  InotifyModel.live InotifyMonitor.mon_feed.
+  InotifyModel.live InotifyMonitor.mon_feed InotifyMonitor.mon_act InotifyMonitor.dumps_ok.
